@@ -1,5 +1,711 @@
 package main
 
-func replayOnRealCode(eng *Engine, rf *ReplayFile, st *oblStatus, fr *FuncResult) string {
-	return "not-attempted"
+// Replay of solver counterexamples on the real code.
+//
+// For a failed obligation with a model, an in-package Go test is generated: the receiver/arguments are built from the
+// model (scalar fields of pointer-to-struct parameters, one level of pointer/interface indirection), the function is
+// called, and the violated clause — compiled from the contract expression to Go — is evaluated. The test is injected
+// with `go test -overlay` (nothing is written into the repository). "confirmed" means the real code exhibited the
+// violation; anything else ends in no-failing-input-found.
+
+import (
+	"encoding/json"
+	"fmt"
+	"go/ast"
+	"go/token"
+	"go/types"
+	"math/big"
+	"os"
+	"os/exec"
+	"path/filepath"
+	"sort"
+	"strings"
+	"time"
+
+	"golang.org/x/tools/go/ssa"
+)
+
+// fieldVar: one scalar location reachable from a parameter, with the SMT term of its entry value.
+type fieldVar struct {
+	Path string     // Go selector path, e.g. "c.baseFlowController.bytesSent"; "#len(c.x)" etc. for slices
+	Term string     // SMT term (entry state)
+	Ty   types.Type // Go type of the location
+	Kind string     // scalar | ptr | iface-tag | iface-ref | slice-len
 }
+
+// entryFieldVars enumerates scalar locations reachable from the parameters whose heaps are used by the VCs.
+func (c *Ctx) entryFieldVars() []fieldVar {
+	var out []fieldVar
+	if c.fn == nil {
+		return nil
+	}
+	seen := map[string]bool{}
+	var walkStruct func(path, ref string, t types.Type, depth int)
+	walkStruct = func(path, ref string, t types.Type, depth int) {
+		st := structOf(t)
+		if st == nil || depth > 3 || seen[path] {
+			return
+		}
+		seen[path] = true
+		for i := 0; i < st.NumFields(); i++ {
+			f := st.Field(i)
+			fp := path + "." + f.Name()
+			ft := f.Type()
+			if structOf(ft) != nil {
+				if _, isNamedPtr := ft.Underlying().(*types.Pointer); !isNamedPtr {
+					walkStruct(fp, fmt.Sprintf("(mksub %s %d)", ref, i), ft, depth)
+					continue
+				}
+			}
+			used := func(cp string) bool { return c.declSet["heap:"+fieldHeapName(typeName(t), f.Name(), cp)] }
+			rd := func(cp string) string {
+				return fmt.Sprintf("(select %s %s)", q(fieldHeapName(typeName(t), f.Name(), cp)+"@0"), ref)
+			}
+			switch u := ft.Underlying().(type) {
+			case *types.Basic:
+				if used("") {
+					out = append(out, fieldVar{fp, rd(""), ft, "scalar"})
+				}
+			case *types.Pointer:
+				if used("") {
+					out = append(out, fieldVar{fp, rd(""), ft, "ptr"})
+					if structOf(u.Elem()) != nil {
+						walkStruct(fp, rd(""), u.Elem(), depth+1)
+					}
+				}
+			case *types.Interface:
+				if used("#tag") {
+					out = append(out, fieldVar{fp, rd("#tag"), ft, "iface-tag"})
+					// devirtualised interface: expose the concrete object
+					if _, ct := c.eng.devirt(ft, firstMethod(u)); ct != nil {
+						if pt, ok := ct.(*types.Pointer); ok {
+							out = append(out, fieldVar{fp + "#ref", rd("#pref"), ct, "iface-ref"})
+							walkStruct(fp+".("+types.TypeString(ct, relQual(c.fn))+")", rd("#pref"), pt.Elem(), depth+1)
+						}
+					}
+				}
+			case *types.Slice:
+				if used("#len") {
+					out = append(out, fieldVar{fp, rd("#len"), ft, "slice-len"})
+				}
+			}
+		}
+	}
+	for _, p := range c.fn.Params {
+		v, ok := c.entryEnvVars[p.Name()]
+		if !ok {
+			continue
+		}
+		if sc, ok := v.(Scalar); ok && sc.S == SRef {
+			if pt, ok := sc.Ty.Underlying().(*types.Pointer); ok && structOf(pt.Elem()) != nil {
+				walkStruct(p.Name(), sc.T, pt.Elem(), 0)
+			}
+		}
+	}
+	return out
+}
+
+func firstMethod(it *types.Interface) string {
+	if it.NumMethods() > 0 {
+		return it.Method(0).Name()
+	}
+	return ""
+}
+
+func relQual(fn *ssa.Function) types.Qualifier {
+	return func(p *types.Package) string {
+		if fn != nil && fn.Pkg != nil && p == fn.Pkg.Pkg {
+			return ""
+		}
+		return p.Name()
+	}
+}
+
+// ---------- model values ----------
+
+func parseModelInt(v string) (*big.Int, bool) {
+	v = strings.TrimSpace(v)
+	if strings.HasPrefix(v, "#x") {
+		n, ok := new(big.Int).SetString(v[2:], 16)
+		return n, ok
+	}
+	if strings.HasPrefix(v, "#b") {
+		n, ok := new(big.Int).SetString(v[2:], 2)
+		return n, ok
+	}
+	if strings.HasPrefix(v, "(_ bv") {
+		f := strings.Fields(v[5:])
+		n, ok := new(big.Int).SetString(f[0], 10)
+		return n, ok
+	}
+	return isNumeral(strings.Join(strings.Fields(v), " "))
+}
+
+func goIntLit(n *big.Int, t types.Type) string {
+	ii, ok := isIntType(t)
+	if ok && ii.signed && n.Sign() >= 0 && n.Cmp(pow2(ii.bits-1)) >= 0 {
+		n = new(big.Int).Sub(n, pow2(ii.bits)) // bit-vector value of a signed type
+	}
+	return n.String()
+}
+
+func isNilRefModel(v string) bool {
+	v = strings.Join(strings.Fields(v), " ")
+	return v == "(mkobj 0)" || v == "rnil"
+}
+
+// ---------- contract expression -> Go ----------
+
+type goCompiler struct {
+	eng    *Engine
+	pkg    *types.Package
+	pc     *PkgContracts
+	olds   []string // Go expressions captured before the call
+	subst  map[string]string
+	lets   []*LetDef
+	failed string
+	depth  int
+}
+
+func (g *goCompiler) fail(msg string) string {
+	if g.failed == "" {
+		g.failed = msg
+	}
+	return "false"
+}
+
+func (g *goCompiler) expr(x ast.Expr) string {
+	switch v := x.(type) {
+	case *ast.ParenExpr:
+		return "(" + g.expr(v.X) + ")"
+	case *ast.BasicLit:
+		return v.Value
+	case *ast.Ident:
+		if s, ok := g.subst[v.Name]; ok {
+			return s
+		}
+		for _, l := range g.lets {
+			if l.Name == v.Name {
+				g.depth++
+				if g.depth > 30 {
+					return g.fail("let recursion")
+				}
+				r := "(" + g.expr(l.Expr) + ")"
+				g.depth--
+				return r
+			}
+		}
+		if g.pc != nil {
+			if ce, ok := g.pc.Consts[v.Name]; ok {
+				return "(" + g.expr(ce) + ")"
+			}
+		}
+		return v.Name
+	case *ast.SelectorExpr:
+		return g.expr(v.X) + "." + v.Sel.Name
+	case *ast.StarExpr:
+		return "*" + g.expr(v.X)
+	case *ast.UnaryExpr:
+		return v.Op.String() + g.expr(v.X)
+	case *ast.BinaryExpr:
+		return "(" + g.expr(v.X) + " " + v.Op.String() + " " + g.expr(v.Y) + ")"
+	case *ast.IndexExpr:
+		return g.expr(v.X) + "[" + g.expr(v.Index) + "]"
+	case *ast.SliceExpr:
+		lo, hi := "", ""
+		if v.Low != nil {
+			lo = g.expr(v.Low)
+		}
+		if v.High != nil {
+			hi = g.expr(v.High)
+		}
+		return g.expr(v.X) + "[" + lo + ":" + hi + "]"
+	case *ast.CallExpr:
+		return g.call(v)
+	}
+	return g.fail(fmt.Sprintf("unsupported expression %T", x))
+}
+
+func (g *goCompiler) call(v *ast.CallExpr) string {
+	arg := func(i int) string { return g.expr(v.Args[i]) }
+	if id, ok := v.Fun.(*ast.Ident); ok {
+		switch id.Name {
+		case "old":
+			// capture before the call
+			sub := &goCompiler{eng: g.eng, pkg: g.pkg, pc: g.pc, subst: g.subst, lets: g.lets}
+			e := sub.expr(v.Args[0])
+			if sub.failed != "" {
+				return g.fail(sub.failed)
+			}
+			g.olds = append(g.olds, e)
+			return fmt.Sprintf("old%d", len(g.olds)-1)
+		case "implies":
+			return "(!(" + arg(0) + ") || (" + arg(1) + "))"
+		case "iff":
+			return "((" + arg(0) + ") == (" + arg(1) + "))"
+		case "ite":
+			return "verifIte(" + arg(0) + ", func() any { return " + arg(1) + " }, func() any { return " + arg(2) + " })"
+		case "len", "cap", "min", "max":
+			var as []string
+			for i := range v.Args {
+				as = append(as, arg(i))
+			}
+			return id.Name + "(" + strings.Join(as, ", ") + ")"
+		case "iserr":
+			return "verifIsErr(" + arg(0) + ", uint64(" + arg(1) + "))"
+		case "dyn":
+			return arg(0) + ".(" + g.expr(v.Args[1]) + ")"
+		case "typeis":
+			return "verifTypeIs[" + g.expr(v.Args[1]) + "](" + arg(0) + ")"
+		case "forall":
+			if len(v.Args) >= 4 {
+				k := v.Args[0].(*ast.Ident).Name
+				return fmt.Sprintf("verifForall(int(%s), int(%s), func(%s int) bool { return %s })", arg(1), arg(2), k, arg(3))
+			}
+		case "isfresh", "samearray", "alias", "lastresult", "ufi", "uf", "ufb", "called", "in", "has", "forall2", "exists":
+			return g.fail("clause uses " + id.Name + " (not executable)")
+		}
+		// spec function
+		if sf := findSpecIn(g.eng, g.pc, id.Name, ""); sf != nil {
+			return g.inlineSpec(sf, "", v.Args)
+		}
+		// conversion
+		var as []string
+		for i := range v.Args {
+			as = append(as, arg(i))
+		}
+		return id.Name + "(" + strings.Join(as, ", ") + ")"
+	}
+	if sel, ok := v.Fun.(*ast.SelectorExpr); ok {
+		// pkg.spec(...) / pkg.Type(x) / recv.pred(...)
+		if id, ok := sel.X.(*ast.Ident); ok {
+			if _, isSub := g.subst[id.Name]; !isSub {
+				for _, pc := range g.eng.db.Pkgs {
+					if shortPkg(pc.Pkg) == id.Name {
+						if sf, ok := pc.Specs[sel.Sel.Name]; ok {
+							return g.inlineSpec(sf, "", v.Args)
+						}
+					}
+				}
+			}
+		}
+		// receiver predicate: search by method name over all receiver preds
+		for _, pc := range g.eng.db.Pkgs {
+			for key, sf := range pc.Specs {
+				if sf.RecvType != "" && strings.HasSuffix(key, "."+sel.Sel.Name) && sf.Name == sel.Sel.Name {
+					return g.inlineSpec(sf, g.expr(sel.X), v.Args)
+				}
+			}
+		}
+		var as []string
+		for i := range v.Args {
+			as = append(as, arg(i))
+		}
+		return g.expr(sel) + "(" + strings.Join(as, ", ") + ")"
+	}
+	return g.fail("unsupported call")
+}
+
+func findSpecIn(eng *Engine, pc *PkgContracts, name, recv string) *SpecFunc {
+	key := name
+	if recv != "" {
+		key = recv + "." + name
+	}
+	if pc != nil {
+		if sf, ok := pc.Specs[key]; ok {
+			return sf
+		}
+	}
+	for _, p := range eng.db.Pkgs {
+		if sf, ok := p.Specs[key]; ok {
+			return sf
+		}
+	}
+	return nil
+}
+
+func (g *goCompiler) inlineSpec(sf *SpecFunc, recv string, args []ast.Expr) string {
+	g.depth++
+	defer func() { g.depth-- }()
+	if g.depth > 30 {
+		return g.fail("spec recursion")
+	}
+	ns := map[string]string{}
+	for k, v := range g.subst {
+		ns[k] = v
+	}
+	for i, p := range sf.Params {
+		if i < len(args) {
+			ns[p] = "(" + g.expr(args[i]) + ")"
+		}
+	}
+	if recv != "" {
+		ns[sf.RecvName] = "(" + recv + ")"
+	}
+	sub := &goCompiler{eng: g.eng, pkg: g.pkg, pc: g.eng.db.Pkgs[sf.Pkg], subst: ns, depth: g.depth}
+	r := "(" + sub.expr(sf.Body) + ")"
+	if sub.failed != "" {
+		return g.fail(sub.failed)
+	}
+	g.olds = append(g.olds, sub.olds...)
+	return r
+}
+
+// ---------- test generation ----------
+
+const replayHelpers = `
+func verifIte(c bool, a, b func() any) any { if c { return a() }; return b() }
+func verifForall(lo, hi int, f func(int) bool) bool { for k := lo; k < hi; k++ { if !f(k) { return false } }; return true }
+func verifTypeIs[T any](x any) bool { _, ok := x.(T); return ok }
+func verifIsErr(e error, code uint64) bool {
+	type coder interface{ Is(error) bool }
+	if e == nil { return false }
+	return verifErrCode(e) == code
+}
+`
+
+func replayOnRealCode(eng *Engine, rf *ReplayFile, st *oblStatus, fr *FuncResult) string {
+	o := st.FailInst
+	if o == nil || st.FailRes == nil || st.FailRes.Model == nil {
+		return "not-attempted"
+	}
+	kind := o.Kind
+	if kind != "post" && !strings.HasPrefix(kind, "safe:") {
+		rf.Replay["reason"] = "replay is generated for post: and safe: obligations only"
+		return "not-attempted"
+	}
+	pkgPath := fr.Pkg
+	fn := eng.funcIndex[pkgPath][fr.Contract.Key]
+	if fn == nil {
+		return "not-attempted"
+	}
+	model := st.FailRes.Model
+	val := func(term string) (string, bool) { v, ok := model[term]; return v, ok }
+	qual := relQual(fn)
+	var sb strings.Builder
+	sb.WriteString("package " + fn.Pkg.Pkg.Name() + "\n\nimport (\n\t\"testing\"\n")
+	imports := map[string]bool{}
+	body := &strings.Builder{}
+	// parameters
+	var argNames []string
+	cannot := ""
+	byPrefix := map[string][]fieldVar{}
+	for _, fv := range o.Fields {
+		root := fv.Path
+		if i := strings.Index(root, "."); i >= 0 {
+			root = root[:i]
+		}
+		byPrefix[root] = append(byPrefix[root], fv)
+	}
+	for _, p := range fn.Params {
+		name := p.Name()
+		if name == "_" || name == "" {
+			name = fmt.Sprintf("arg%d", len(argNames))
+		}
+		argNames = append(argNames, name)
+		t := p.Type()
+		collectImports(t, fn.Pkg.Pkg, imports)
+		ts := types.TypeString(t, qual)
+		var paramTerm string
+		for _, mv := range o.Vars {
+			if mv.Name == p.Name() {
+				paramTerm = mv.Term
+			}
+		}
+		switch u := t.Underlying().(type) {
+		case *types.Basic:
+			mv, ok := val(paramTerm)
+			if !ok {
+				fmt.Fprintf(body, "\tvar %s %s\n", name, ts)
+				continue
+			}
+			if u.Info()&types.IsBoolean != 0 {
+				fmt.Fprintf(body, "\tvar %s %s = %s\n", name, ts, strings.TrimSpace(mv))
+			} else if n, ok := parseModelInt(mv); ok && u.Info()&types.IsInteger != 0 {
+				fmt.Fprintf(body, "\tvar %s %s = %s\n", name, ts, goIntLit(n, t))
+			} else {
+				fmt.Fprintf(body, "\tvar %s %s\n", name, ts)
+			}
+		case *types.Pointer:
+			if structOf(u.Elem()) == nil {
+				cannot = "pointer parameter to non-struct"
+				break
+			}
+			fmt.Fprintf(body, "\t%s := new(%s)\n", name, types.TypeString(u.Elem(), qual))
+			fvs := byPrefix[p.Name()]
+			sort.SliceStable(fvs, func(i, j int) bool { return strings.Count(fvs[i].Path, ".") < strings.Count(fvs[j].Path, ".") })
+			for _, fv := range fvs {
+				mv, ok := val(fv.Term)
+				if !ok {
+					continue
+				}
+				path := name + strings.TrimPrefix(fv.Path, p.Name())
+				switch fv.Kind {
+				case "scalar":
+					b := fv.Ty.Underlying().(*types.Basic)
+					if b.Info()&types.IsBoolean != 0 {
+						fmt.Fprintf(body, "\t%s = %s\n", path, strings.TrimSpace(mv))
+					} else if n, ok := parseModelInt(mv); ok && b.Info()&types.IsInteger != 0 {
+						collectImports(fv.Ty, fn.Pkg.Pkg, imports)
+						fmt.Fprintf(body, "\t%s = %s(%s)\n", path, types.TypeString(fv.Ty, qual), goIntLit(n, fv.Ty))
+					}
+				case "ptr":
+					if !isNilRefModel(mv) {
+						pt := fv.Ty.Underlying().(*types.Pointer)
+						if structOf(pt.Elem()) != nil && exportedOrLocal(pt.Elem(), fn.Pkg.Pkg) {
+							collectImports(pt.Elem(), fn.Pkg.Pkg, imports)
+							fmt.Fprintf(body, "\t%s = new(%s)\n", path, types.TypeString(pt.Elem(), qual))
+						}
+					}
+				case "iface-ref":
+					if !isNilRefModel(mv) {
+						pt := fv.Ty.(*types.Pointer)
+						fmt.Fprintf(body, "\t%s = new(%s)\n", strings.TrimSuffix(path, "#ref"), types.TypeString(pt.Elem(), qual))
+					}
+				case "slice-len":
+					if n, ok := parseModelInt(mv); ok && n.IsInt64() && n.Int64() >= 0 && n.Int64() <= 1<<16 {
+						collectImports(fv.Ty, fn.Pkg.Pkg, imports)
+						fmt.Fprintf(body, "\t%s = make(%s, %d)\n", path, types.TypeString(fv.Ty, qual), n.Int64())
+					} else if ok {
+						cannot = "model asks for a huge slice"
+					}
+				}
+			}
+		case *types.Slice:
+			var lenTerm string
+			for _, mv := range o.Vars {
+				if mv.Name == p.Name()+"#len" {
+					lenTerm = mv.Term
+				}
+			}
+			n := int64(0)
+			if mv, ok := val(lenTerm); ok {
+				if bn, ok := parseModelInt(mv); ok {
+					if !bn.IsInt64() || bn.Int64() > 1<<16 {
+						cannot = "model asks for a huge slice"
+						break
+					}
+					n = bn.Int64()
+				}
+			}
+			fmt.Fprintf(body, "\t%s := make(%s, %d)\n", name, ts, n)
+			// element values for byte slices
+			if isByteSlice(t) {
+				for i := int64(0); i < n && i < 64; i++ {
+					for _, mv := range o.Vars {
+						if mv.Name == fmt.Sprintf("%s[%d]", p.Name(), i) {
+							if v, ok := val(mv.Term); ok {
+								if bn, ok := parseModelInt(v); ok {
+									fmt.Fprintf(body, "\t%s[%d] = %d\n", name, i, bn.Int64()&0xff)
+								}
+							}
+						}
+					}
+				}
+			}
+		default:
+			fmt.Fprintf(body, "\tvar %s %s\n", name, ts)
+		}
+	}
+	if cannot != "" {
+		rf.Replay["reason"] = cannot
+		return "not-attempted"
+	}
+	// clause
+	var check string
+	g := &goCompiler{eng: eng, pkg: fn.Pkg.Pkg, pc: eng.db.Pkgs[pkgPath], subst: map[string]string{}, lets: fr.Contract.Lets}
+	nres := fn.Signature.Results().Len()
+	var resNames []string
+	for i := 0; i < nres; i++ {
+		resNames = append(resNames, fmt.Sprintf("r%d", i))
+		g.subst[fmt.Sprintf("result%d", i)] = fmt.Sprintf("r%d", i)
+		if n := fn.Signature.Results().At(i).Name(); n != "" && n != "_" {
+			g.subst[n] = fmt.Sprintf("r%d", i)
+		}
+	}
+	if nres == 1 {
+		g.subst["result"] = "r0"
+	}
+	if fn.Signature.Recv() != nil && fr.Contract.RecvName != "" {
+		g.subst[fr.Contract.RecvName] = argNames[0]
+	}
+	for i, p := range fn.Params {
+		if p.Name() != argNames[i] {
+			g.subst[p.Name()] = argNames[i]
+		}
+	}
+	if kind == "post" {
+		var cl *Clause
+		for i, e := range fr.Contract.Ensures {
+			lb := e.Label
+			if lb == "" {
+				lb = fmt.Sprintf("%d", i)
+			}
+			if lb == o.Label {
+				cl = e
+			}
+		}
+		if cl == nil {
+			return "not-attempted"
+		}
+		check = g.expr(cl.Expr)
+		if g.failed != "" {
+			rf.Replay["reason"] = g.failed
+			return "not-attempted"
+		}
+	}
+	for i, oe := range g.olds {
+		fmt.Fprintf(body, "\told%d := %s; _ = old%d\n", i, oe, i)
+	}
+	// call
+	callee := fn.Name()
+	args := argNames
+	if fn.Signature.Recv() != nil {
+		callee = argNames[0] + "." + fn.Name()
+		args = argNames[1:]
+	}
+	call := callee + "(" + strings.Join(args, ", ") + ")"
+	if fn.Signature.Variadic() {
+		call = callee + "(" + strings.Join(args, ", ") + "...)"
+	}
+	if strings.HasPrefix(kind, "safe:") {
+		fmt.Fprintf(body, "\tdefer func() {\n\t\tif r := recover(); r != nil {\n\t\t\tt.Fatalf(\"VERIF-REPLAY-CONFIRMED: panic: %%v\", r)\n\t\t}\n\t}()\n")
+		if nres > 0 {
+			fmt.Fprintf(body, "\t%s = %s\n", strings.Repeat("_, ", nres-1)+"_", call)
+		} else {
+			fmt.Fprintf(body, "\t%s\n", call)
+		}
+	} else {
+		if nres > 0 {
+			fmt.Fprintf(body, "\t%s := %s\n", strings.Join(resNames, ", "), call)
+			for _, r := range resNames {
+				fmt.Fprintf(body, "\t_ = %s\n", r)
+			}
+		} else {
+			fmt.Fprintf(body, "\t%s\n", call)
+		}
+		fmt.Fprintf(body, "\tif !(%s) {\n\t\tt.Fatalf(\"VERIF-REPLAY-CONFIRMED: clause violated\")\n\t}\n", check)
+	}
+	var imps []string
+	for im := range imports {
+		imps = append(imps, im)
+	}
+	sort.Strings(imps)
+	for _, im := range imps {
+		sb.WriteString("\t\"" + im + "\"\n")
+	}
+	sb.WriteString(")\n")
+	sb.WriteString(strings.Replace(replayHelpers, "verifErrCode(e)", errCodeExpr(eng, fn.Pkg.Pkg, imports), 1))
+	if strings.Contains(replayHelpers, "verifErrCode") && !imports[eng.modPath+"/internal/qerr"] {
+		// helper needs qerr + errors: emit separately below
+	}
+	sb.WriteString("\nfunc TestVerifReplay(t *testing.T) {\n")
+	sb.WriteString(body.String())
+	sb.WriteString("}\n")
+	src := sb.String()
+	src = fixHelperImports(src, eng, fn.Pkg.Pkg)
+	rf.Replay["test_source"] = src
+	return runReplayTest(eng, rf, pkgPath, fn.Pkg.Pkg.Name(), src)
+}
+
+func errCodeExpr(eng *Engine, pkg *types.Package, imports map[string]bool) string {
+	return "verifErrCode(e)"
+}
+
+// fixHelperImports adds the imports the helpers need (errors, qerr) and defines verifErrCode.
+func fixHelperImports(src string, eng *Engine, pkg *types.Package) string {
+	qerrPath := eng.modPath + "/internal/qerr"
+	helper := "\nfunc verifErrCode(e error) uint64 {\n\tvar te *qerr.TransportError\n\tif errors.As(e, &te) { return uint64(te.ErrorCode) }\n\treturn ^uint64(0)\n}\n"
+	if pkg.Path() == qerrPath {
+		helper = strings.ReplaceAll(helper, "qerr.", "")
+	}
+	add := "\t\"errors\"\n"
+	if pkg.Path() != qerrPath && !strings.Contains(src, "\""+qerrPath+"\"") {
+		add += "\t\"" + qerrPath + "\"\n"
+	}
+	if !strings.Contains(src, "\t\"errors\"\n") {
+		src = strings.Replace(src, "import (\n", "import (\n"+add, 1)
+	} else if pkg.Path() != qerrPath && !strings.Contains(src, "\""+qerrPath+"\"") {
+		src = strings.Replace(src, "import (\n", "import (\n\t\""+qerrPath+"\"\n", 1)
+	}
+	return src + helper
+}
+
+func exportedOrLocal(t types.Type, pkg *types.Package) bool {
+	n := namedOf(t)
+	if n == nil {
+		return false
+	}
+	return n.Obj().Pkg() == pkg || n.Obj().Exported()
+}
+
+func collectImports(t types.Type, self *types.Package, imports map[string]bool) {
+	var walk func(t types.Type, d int)
+	walk = func(t types.Type, d int) {
+		if d > 4 {
+			return
+		}
+		t = types.Unalias(t)
+		switch x := t.(type) {
+		case *types.Named:
+			if p := x.Obj().Pkg(); p != nil && p != self {
+				imports[p.Path()] = true
+			}
+		case *types.Pointer:
+			walk(x.Elem(), d+1)
+		case *types.Slice:
+			walk(x.Elem(), d+1)
+		case *types.Array:
+			walk(x.Elem(), d+1)
+		case *types.Map:
+			walk(x.Key(), d+1)
+			walk(x.Elem(), d+1)
+		}
+	}
+	walk(t, 0)
+}
+
+func runReplayTest(eng *Engine, rf *ReplayFile, pkgPath, pkgName, src string) string {
+	dir, err := os.MkdirTemp("", "govc-replay")
+	if err != nil {
+		return "not-attempted"
+	}
+	defer os.RemoveAll(dir)
+	rel := strings.TrimPrefix(strings.TrimPrefix(pkgPath, eng.modPath), "/")
+	pkgDir := filepath.Join(eng.repo, rel)
+	testFile := filepath.Join(dir, "zz_verif_replay_test.go")
+	os.WriteFile(testFile, []byte(src), 0o644)
+	ov := map[string]map[string]string{"Replace": {filepath.Join(pkgDir, "zz_verif_replay_test.go"): testFile}}
+	ovb, _ := json.Marshal(ov)
+	ovFile := filepath.Join(dir, "ov.json")
+	os.WriteFile(ovFile, ovb, 0o644)
+	target := "./" + rel
+	if rel == "" {
+		target = "."
+	}
+	cmd := exec.Command("go", "test", "-overlay", ovFile, "-vet=off", "-timeout", "60s", "-count=1", "-run", "^TestVerifReplay$", target)
+	cmd.Dir = eng.repo
+	cmd.Env = append(loaderEnv(), "GOEXPERIMENT=synctest")
+	done := make(chan struct{})
+	var out []byte
+	go func() { out, _ = cmd.CombinedOutput(); close(done) }()
+	select {
+	case <-done:
+	case <-time.After(180 * time.Second):
+		if cmd.Process != nil {
+			cmd.Process.Kill()
+		}
+		rf.Replay["go_test_output"] = "timeout"
+		return "not-reproduced"
+	}
+	rf.Replay["go_test_output"] = truncate(string(out), 4000)
+	if strings.Contains(string(out), "VERIF-REPLAY-CONFIRMED") {
+		return "confirmed"
+	}
+	if strings.Contains(string(out), "[build failed]") || strings.Contains(string(out), "cannot use") || strings.Contains(string(out), "undefined:") {
+		return "not-attempted"
+	}
+	return "not-reproduced"
+}
+
+var _ = token.NoPos
